@@ -64,6 +64,36 @@ func profileFor(check, tier, variant string) *CheckDef {
 			d.MaxOps = 16
 			d.ForkDepth = 3
 		}
+	case "C15":
+		// concurrent windows under the race detector
+		d.MinClients, d.MaxClients = 2, 5
+		d.MinOps, d.MaxOps = 3, 10
+		d.Readers, d.ExtRead, d.SharedReads, d.History = true, true, true, false
+		d.Concurrent, d.EarlyClose = true, true
+		d.MaxWindows = 6000
+	case "C15close":
+		// Close at arbitrary moments, one release per window (replayable)
+		d.Check = "C15"
+		d.MinClients, d.MaxClients = 1, 3
+		d.MinOps, d.MaxOps = 3, 12
+		d.FSOnly, d.AckedOnly, d.EarlyClose = true, true, true
+		d.MergeHeavy = true
+	case "C15knownV2":
+		// dedicated probe of the listed ice v2 finding: no shield
+		d.Check = "C15"
+		d.MinClients, d.MaxClients = 3, 4
+		d.MinOps, d.MaxOps = 4, 8
+		d.Readers, d.ExtRead, d.SharedReads = true, false, true
+		d.Concurrent, d.Unshielded, d.ForceSegVer = true, true, 2
+		d.MaxWindows = 4000
+	case "C15knownStats":
+		// dedicated probe of the listed Stats() finding
+		d.Check = "C15"
+		d.MinClients, d.MaxClients = 3, 4
+		d.MinOps, d.MaxOps = 4, 8
+		d.Readers, d.SharedReads, d.StatsCalls = true, true, true
+		d.Concurrent, d.ForceSegVer = true, 1
+		d.MaxWindows = 4000
 	case "C11":
 		d.MinClients, d.MaxClients = 1, 3
 		d.MinOps, d.MaxOps = 6, 22
